@@ -5,9 +5,25 @@ from . import gen, export
 from .common import pa, pd, np, NestedFrame, NestedDtype
 from .runner import call_real
 
-NESTS = ["n", "my nest", "class", "1st", "n-x", "lc", "N_2", "in", "a"]
-FIELDS = ["a", "b c", "in", "2x", "f/g", "t", "flux", "class", "x", "é"]
+# incl. names pandas or the library use for their own purposes (index, level_0, self, base)
+NESTS = ["n", "my nest", "class", "1st", "n-x", "lc", "N_2", "in", "a", "self", "index", "base"]
+FIELDS = ["a", "b c", "in", "2x", "f/g", "t", "flux", "class", "x", "é", "index", "self", "level_0", "base"]
 DOTTED = ["obs.v2", "a.b"]
+
+
+def ncase(ctx, op, inp, real, model, spec=None, **kw):
+    """ctx.case with the hypothesis vector of the frame under test (K10: a nest that is called 'base')"""
+    kw.setdefault("hyp", dict(getattr(ctx, "_names_hyp", {})))
+    return ctx.case(op, inp, real, model, spec, **kw)
+
+
+def base_layer_model(nf, nest, f):
+    """what the tree does with the path of a field of a nest called 'base' in reduce / sort_values / dropna: the layer
+    name is taken for the library's own name of the base layer and the lookup of 'base.f' / 'f' among the base columns
+    fails (K10); None where a base column of that name exists (no expectation)"""
+    if nest != "base" or f in [str(c) for c in nf.columns] or f"base.{f}" in [str(c) for c in nf.columns]:
+        return None
+    return {"err": "KeyError"}
 
 
 def clean(name):
@@ -50,6 +66,7 @@ def build_frame(ctx, collide=None):
     nf = NestedFrame({"x": np.array([1.5, 2.5, 3.5]), "base col": np.array([7, 8, 9])}, index=pd.Index(index))
     schema = {}
     markers = {}
+    ctx._names_hyp = {"nest_named_base": "base" in nests}
     for k, nest in enumerate(nests):
         fields = rng.sample(FIELDS, rng.randint(2, 3))
         if collide == "field_a" and k == 0 and "a" not in fields:
@@ -102,7 +119,7 @@ def case_paths(ctx, collide=None):
                               "all_columns": {k: [str(x) for x in v] for k, v in nf.all_columns.items()},
                               "fields": {n: list(nf[n].nest.fields) for n in schema}})
     exp = {"nested_columns": list(schema), "all_columns": {"base": [str(c) for c in nf.columns], **schema}, "fields": schema}
-    ctx.case("names.listing", {"schema": sj}, real, None, {"ok": exp}, features=("listing", str(collide)))
+    ncase(ctx, "names.listing", {"schema": sj}, real, None, {"ok": exp}, features=("listing", str(collide)))
     for nest, fields in schema.items():
         for f in fields:
             want = field_vals(markers, nest, f)
@@ -114,7 +131,7 @@ def case_paths(ctx, collide=None):
                 # parse: real vs model
                 m = ctx.driver.call("names.parse", path=p, clean=ct)["model"]
                 real = call_real(lambda: list(nf._parse_hierarchical_components(p)))
-                ctx.case("names.parse", inp, real, m, {"ok": [nest, f]}, features=feats)
+                ncase(ctx, "names.parse", inp, real, m, {"ok": [nest, f]}, features=feats)
                 # 1. item access
                 mg = ctx.driver.call("names.getitem", path=p, clean=ct, schema=sj)["model"]
                 real = call_real(lambda: [None if v is None else float(v) for v in pa.array(nf[p]).to_pylist()])
@@ -124,13 +141,13 @@ def case_paths(ctx, collide=None):
                 else:
                     spec = {"ok": want}
                     mexp = {"field": [nest, f]}
-                ctx.case("names.getitem", inp, real, None, spec, features=feats)
+                ncase(ctx, "names.getitem", inp, real, None, spec, features=feats)
                 # the known-column tests the operations share (used e.g. by reduce to tell columns from extra arguments)
                 mk = ctx.driver.call("names.known", path=p, clean=ct, schema=sj)["model"]
-                ctx.case("names.known", inp, call_real(lambda: {"column": bool(nf._is_known_column(p)),
+                ncase(ctx, "names.known", inp, call_real(lambda: {"column": bool(nf._is_known_column(p)),
                                                                 "hierarchical": bool(nf._is_known_hierarchical_column(p))}),
                          mk, None, features=feats)
-                ctx.case("names.getitem.resolution", inp, {"ok": mexp if "ok" in real else {"err": True}}, {"ok": mg if "err" not in mg else {"err": True}},
+                ncase(ctx, "names.getitem.resolution", inp, {"ok": mexp if "ok" in real else {"err": True}}, {"ok": mg if "err" not in mg else {"err": True}},
                          None, features=feats)
                 if shadowed:
                     continue
@@ -147,9 +164,9 @@ def case_paths(ctx, collide=None):
                     return out
                 exp = {f"{nn}|{ff}": (newv if (nn, ff) == (nest, f) else field_vals(markers, nn, ff)) for (nn, ff) in markers}
                 exp["columns"] = [str(c) for c in nf.columns]
-                ctx.case("names.setitem", inp, call_real(setit), None, {"ok": exp}, features=feats)
+                ncase(ctx, "names.setitem", inp, call_real(setit), None, {"ok": exp}, features=feats)
                 ms = ctx.driver.call("names.setitem", path=p, clean=ct, schema=sj)["model"]
-                ctx.case("names.setitem.resolution", inp, {"ok": {"field": [nest, f]}}, {"ok": ms}, None, features=feats)
+                ncase(ctx, "names.setitem.resolution", inp, {"ok": {"field": [nest, f]}}, {"ok": ms}, None, features=feats)
                 # 5. reduce
                 def red():
                     got = []
@@ -159,7 +176,7 @@ def case_paths(ctx, collide=None):
                         return {"k": 0}
                     nf.reduce(fun, p)
                     return sum(got, [])
-                ctx.case("names.reduce", inp, call_real(red), None, {"ok": want}, features=feats)
+                ncase(ctx, "names.reduce", inp, call_real(red), base_layer_model(nf, nest, f), {"ok": want}, features=feats)
                 # 6. sort_values: ordered by that field inside every row
                 def srt():
                     r = nf.sort_values(p)
@@ -169,12 +186,12 @@ def case_paths(ctx, collide=None):
                     seg = want[k:k + ln]
                     k += ln
                     exp_sorted += sorted([v for v in seg if v is not None]) + [v for v in seg if v is None]
-                ctx.case("names.sort_values", inp, call_real(srt), None, {"ok": exp_sorted}, features=feats)
+                ncase(ctx, "names.sort_values", inp, call_real(srt), base_layer_model(nf, nest, f), {"ok": exp_sorted}, features=feats)
                 # 7. dropna(subset=path): removes exactly the record where THAT field is null
                 def drp():
                     r = nf.dropna(subset=p)
                     return [None if v is None else float(v) for v in pa.array(r[nest].nest[f]).to_pylist()]
-                ctx.case("names.dropna", inp, call_real(drp), None, {"ok": [v for v in want if v is not None]}, features=feats)
+                ncase(ctx, "names.dropna", inp, call_real(drp), base_layer_model(nf, nest, f), {"ok": [v for v in want if v is not None]}, features=feats)
                 # 3./4. query and eval need expression syntax: quoted parts, or identifiers
                 if kind == "quoted" or (kind == "plain" and is_ident(nest) and is_ident(f)) or (kind == "half"):
                     thr = markers[(nest, f)]["vals"][1]
@@ -185,16 +202,16 @@ def case_paths(ctx, collide=None):
                     def qry():
                         r = nf.query(qform)
                         return [None if v is None else float(v) for v in pa.array(r[nest].nest[f]).to_pylist()]
-                    ctx.case("names.query", {**inp, "query": qform}, call_real(qry), None,
+                    ncase(ctx, "names.query", {**inp, "query": qform}, call_real(qry), None,
                              {"ok": [v for v in want if v is not None and v > thr]}, features=feats + (qform.split("{")[0][:4],))
                     def evl():
                         r = nf.eval(f"{p} + 0")
                         return [None if v is None else float(v) for v in pa.array(r).to_pylist()]
-                    ctx.case("names.eval", inp, call_real(evl), None, {"ok": want}, features=feats)
+                    ncase(ctx, "names.eval", inp, call_real(evl), None, {"ok": want}, features=feats)
                     def evl_assign():
                         r = nf.eval(f"{p} = {p} * 2")
                         return [None if v is None else float(v) for v in pa.array(r[nest].nest[f]).to_pylist()]
-                    ctx.case("names.eval_assign", inp, call_real(evl_assign), None,
+                    ncase(ctx, "names.eval_assign", inp, call_real(evl_assign), None,
                              {"ok": [None if v is None else v * 2 for v in want]}, features=feats)
     # unknown paths: an error in every reading operation, never a silent resolution
     nest0 = list(schema)[0]
@@ -212,7 +229,7 @@ def case_paths(ctx, collide=None):
         }
         mg = ctx.driver.call("names.getitem", path=p, clean=ct, schema=sj)["model"]
         for opn, r in outcomes.items():
-            ctx.case(f"names.unknown.{opn}", {"path": p, "schema": sj}, r, ({"err": True} if opn == "getitem" and "err" in mg else None),
+            ncase(ctx, f"names.unknown.{opn}", {"path": p, "schema": sj}, r, ({"err": True} if opn == "getitem" and "err" in mg else None),
                      {"err": "KeyError"}, features=("unknown",), spec_ok="err" in r)
 
 
@@ -247,7 +264,7 @@ def case_after_failed_calls(ctx):
     for who, g in (("same_object", nf), ("copy", nf.copy())):
         for name, fn in probes.items():
             real = call_real(lambda: fn(g))
-            ctx.case(f"names.after_failed.{name}", {"path": p, "failed": failing[0], "failed_outcome": str(r)[:80], "on": who},
+            ncase(ctx, f"names.after_failed.{name}", {"path": p, "failed": failing[0], "failed_outcome": str(r)[:80], "on": who},
                      real, None, {"ok": exp[name]}, features=(failing[0], who))
 
 
@@ -302,7 +319,7 @@ def case_reduce_many_paths(ctx):
                 rows.append(col[kk:kk + ln])
                 kk += ln
             exp.append(rows)
-    ctx.case("names.reduce_many", {"args": args, "schema": schema_json(nf, schema)}, call_real(run), None, {"ok": exp},
+    ncase(ctx, "names.reduce_many", {"args": args, "schema": schema_json(nf, schema)}, call_real(run), None, {"ok": exp},
              features=("reduce_many", f"n={len(picks)}"), nontrivial=True)
 
 
@@ -368,7 +385,7 @@ def case_eval_statements(ctx):
             fields.append(tgt)
     exp = {ff: env[ff] for ff in list(schema[nest]) + [newname]}
     exp["fields"] = fields
-    ctx.case("names.eval_statements", {"program": prog, "schema": schema_json(nf, schema)}, call_real(run), None, {"ok": exp},
+    ncase(ctx, "names.eval_statements", {"program": prog, "schema": schema_json(nf, schema)}, call_real(run), None, {"ok": exp},
              features=("eval_statements",), nontrivial=True)
 
 
@@ -388,7 +405,7 @@ def case_keys_across_nests(ctx):
         keys.reverse()
     for opn, fn in (("sort_values", lambda: nf.sort_values(keys)), ("dropna", lambda: nf.dropna(subset=keys))):
         real = call_real(lambda: (fn(), "returned")[1])
-        ctx.case(f"names.across_nests.{opn}", {"keys": keys, "schema": schema_json(nf, schema)}, real, None, {"err": "ValueError"},
+        ncase(ctx, f"names.across_nests.{opn}", {"keys": keys, "schema": schema_json(nf, schema)}, real, None, {"err": "ValueError"},
                  features=("across_nests", opn), spec_ok="err" in real, nontrivial=True)
 
 
@@ -403,7 +420,7 @@ def case_literal_dotted_nonfield(ctx):
     pd.DataFrame.__setitem__(nf, lit, np.array(vals))
     want = {"ok": vals}
     real = call_real(lambda: [float(v) for v in nf[lit].tolist()])
-    ctx.case("names.literal_nonfield.getitem", {"path": lit, "schema": schema_json(nf, schema)}, real, None, want,
+    ncase(ctx, "names.literal_nonfield.getitem", {"path": lit, "schema": schema_json(nf, schema)}, real, None, want,
              features=("literal_nonfield",), nontrivial=True)
 
     def red():
@@ -416,7 +433,7 @@ def case_literal_dotted_nonfield(ctx):
         nf.reduce(fun, lit)
         return sum(got, [])
     r = call_real(red)
-    ctx.case("names.literal_nonfield.reduce", {"path": lit, "schema": schema_json(nf, schema)}, r, None, want,
+    ncase(ctx, "names.literal_nonfield.reduce", {"path": lit, "schema": schema_json(nf, schema)}, r, None, want,
              features=("literal_nonfield",), spec_ok=("err" in r or r == want), nontrivial=True)
     for opn, fn in (("sort_values", lambda: nf.sort_values(lit)), ("dropna", lambda: nf.dropna(subset=lit)),
                     ("query", lambda: nf.query(f"`{lit}` < 0"))):
@@ -429,7 +446,7 @@ def case_literal_dotted_nonfield(ctx):
         r = call_real(run)
         exp = {f: sorted((x is None, x or 0.0) for x in field_vals(markers, nest, f)) for f in schema[nest]}
         exp = json_roundtrip(exp)
-        ctx.case(f"names.literal_nonfield.{opn}", {"path": lit, "schema": schema_json(nf, schema)},
+        ncase(ctx, f"names.literal_nonfield.{opn}", {"path": lit, "schema": schema_json(nf, schema)},
                  r if "err" in r else {"ok": json_roundtrip(r["ok"])}, None, {"ok": exp},
                  features=("literal_nonfield", opn), spec_ok=("err" in r or json_roundtrip(r["ok"]) == exp), nontrivial=True)
 
@@ -490,5 +507,5 @@ def case_parquet_paths(ctx):
     for p in cols:
         v = nf[p] if p not in ("x", "base col") else pd.DataFrame.__getitem__(nf, p)
         exp["values"][p] = [None if x is None or x != x else float(x) for x in pa.array(v).to_pylist()]
-    ctx.case("names.parquet_selection", {"columns": cols, "schema": schema_json(nf, schema)}, call_real(run), None, {"ok": exp},
+    ncase(ctx, "names.parquet_selection", {"columns": cols, "schema": schema_json(nf, schema)}, call_real(run), None, {"ok": exp},
              features=("parquet_selection", f"k={len(cols)}"), nontrivial=True)
